@@ -135,7 +135,10 @@ def observe(bdir, ks, cs, ring, wrap, want_bytes=False, timeout=120, prelude=Fal
         meta = obs.thread_meta(TID, TID, LOOM, cpus=[(0, 0)])
         pre_path = pre_bytes = None
         if prelude:
-            ptid = 1                      # "thread.1" sorts before "thread.<TID>"
+            # "thread.1" sorts before "thread.<TID>" (processed first); prelude == "after": "thread.2" sorts
+            # after it, the already sorted stream is processed LAST (a failure on the stream under test must
+            # still be the outcome of the run)
+            ptid = 2 if prelude == "after" else 1
             # (prelude == "empty": a stream without a single event, as a thread that only calls
             # ovni_thread_init and ovni_thread_free leaves behind)
             pevs = b"" if prelude == "empty" else \
@@ -586,8 +589,14 @@ def _main(pid, tier):
         # ---- several streams in one trace: ovnisort keeps one look-back ring for the whole trace, every
         # stream must be sorted as if it were alone (prefer the cases that insert at the very start)
         multi = sorted(exported, key=lambda t: (t["fm"] != 1, t["exp"] != "sorted"))[:(1500 if tier == "quick" else 12000)]
+        # + streams that cannot (or need not) be sorted, followed by a sorted stream that is processed last
+        hard = [t for t in exported if t["exp"] != "sorted" and not t["isorted"]]
+        rng.shuffle(hard)
+        hard = [dict(t, _after=True) for t in hard[:(400 if tier == "quick" else 5000)]]
+        multi = multi + hard
         mobs = core.pmap(lambda t: observe(bdir, t["k"], t["c"], t["n"], False, timeout=15,
-                                           prelude="empty" if (len(t["k"]) + t["n"]) % 3 == 0 else True), multi,
+                                           prelude="after" if t.get("_after") else
+                                           ("empty", "after", True)[(len(t["k"]) + t["n"]) % 3]), multi,
                          workers=max(4, core.NCPU - 6))
         magree = 0
         for t, o in zip(multi, mobs):
